@@ -4,6 +4,8 @@
 //   unesc <hex text after the quote>    -> unesc rc=<name> len=<n> fill=<n> out=<hex> end=<offset>
 //   strtod <hex text>                   -> strtod <16 hex bits> <consumed> <erange 0|1>
 //   ftoa <16 hex bits>                  -> ftoa <hex text> len=<out_len>
+//   f64 <a> <b> [<a> <b> ...]           -> f64 <a*b> <a+b> <a/b> <a==b> ... (hardware binary64, cross-check of the soft float)
+//   i2d <int>                           -> i2d <bits of (double) int>
 #include <errno.h>
 #include "iwjser.c"   // static _jbl_unescape_json_string (library object iwjser.o is left out at link time)
 #include "hx_json.h"
@@ -85,6 +87,22 @@ int main(int argc, char **argv) {
       uint64_t bits; memcpy(&bits, &d, 8);
       printf("strtod %016" PRIx64 " %d %d\n", bits, (int) (pe - (char*) b), errno == ERANGE);
       free(b);
+    } else if (!strcmp(w[0], "f64") && n >= 3 && n % 2 == 1) {
+      printf("f64");
+      for (int i = 1; i + 1 < n; i += 2) {
+        uint64_t ab = strtoull(w[i], 0, 16), bb = strtoull(w[i + 1], 0, 16), r;
+        volatile double a, b, c;
+        memcpy((void*) &a, &ab, 8); memcpy((void*) &b, &bb, 8);
+        c = a * b; memcpy(&r, (void*) &c, 8); printf(" %016" PRIx64, r);
+        c = a + b; memcpy(&r, (void*) &c, 8); printf(" %016" PRIx64, r);
+        c = a / b; memcpy(&r, (void*) &c, 8); printf(" %016" PRIx64, r);
+        printf(" %d", a == b);
+      }
+      printf("\n");
+    } else if (!strcmp(w[0], "i2d") && n == 2) {
+      volatile int64_t i = strtoll(w[1], 0, 10);
+      volatile double c = (double) i; uint64_t r;
+      memcpy(&r, (void*) &c, 8); printf("i2d %016" PRIx64 "\n", r);
     } else if (!strcmp(w[0], "ftoa") && n == 2) {
       uint64_t bits = strtoull(w[1], 0, 16); double d; memcpy(&d, &bits, 8);
       char buf[IWNUMBUF_SIZE]; size_t ol = 0;
